@@ -10,6 +10,7 @@ package main
 import (
 	"bufio"
 	"bytes"
+	"crypto/sha256"
 	"encoding/json"
 	"flag"
 	"fmt"
@@ -201,6 +202,123 @@ func buildWorker(flavour string) (string, error) {
 	return out, nil
 }
 
+// buildRaceWorker builds the plain flavour with the race detector.
+func buildRaceWorker() (string, error) {
+	out := filepath.Join(root, "bin", "worker-race.test")
+	cmd := exec.Command(goBin(), "test", "-c", "-race", "-o", out, "./worker")
+	cmd.Dir = root
+	cmd.Env = goEnv()
+	if b, err := cmd.CombinedOutput(); err != nil {
+		return "", fmt.Errorf("building the race worker failed: %v\n%s", err, b)
+	}
+	return out, nil
+}
+
+// raceReport is one "WARNING: DATA RACE" block of a worker's stderr.
+type raceReport struct {
+	text  string
+	tops  []string // innermost non-runtime frame of each access
+	inSUT bool
+}
+
+var raceAccess = regexp.MustCompile(`(?m)^(?:Read|Write|Previous read|Previous write) at [^\n]*\n((?:  [^\n]*\n)+)`)
+
+func parseRaceReports(stderr string) []raceReport {
+	var out []raceReport
+	parts := strings.Split(stderr, "WARNING: DATA RACE")
+	for _, p := range parts[1:] {
+		if i := strings.Index(p, "=================="); i >= 0 {
+			p = p[:i]
+		}
+		r := raceReport{text: p, inSUT: true}
+		for _, m := range raceAccess.FindAllStringSubmatch(p, -1) {
+			top := ""
+			for _, l := range strings.Split(m[1], "\n") {
+				l = strings.TrimSpace(l)
+				if l == "" || strings.HasPrefix(l, "/") || strings.Contains(l, ".go:") {
+					continue // file:line lines
+				}
+				if strings.HasPrefix(l, "runtime.") || strings.HasPrefix(l, "sync.") || strings.HasPrefix(l, "sync/atomic.") {
+					continue
+				}
+				top = l
+				break
+			}
+			r.tops = append(r.tops, top)
+			if !strings.HasPrefix(top, "go.sia.tech/coreutils") {
+				r.inSUT = false
+			}
+		}
+		if len(r.tops) < 2 {
+			r.inSUT = false
+		}
+		out = append(out, r)
+	}
+	return out
+}
+
+// racePass runs n runs of the property under the race detector and returns
+// the reports whose two accesses are both in coreutils code, plus the number of
+// other (harness) reports and of completed runs.
+func racePass(bin, prop string, base uint64, n, procs int) (sut []raceReport, other, completed int) {
+	var mu sync.Mutex
+	var wg sync.WaitGroup
+	chunk := (n + procs - 1) / procs
+	for w := 0; w < procs; w++ {
+		from, cnt := w*chunk, chunk
+		if from+cnt > n {
+			cnt = n - from
+		}
+		if cnt <= 0 {
+			continue
+		}
+		wg.Add(1)
+		go func(from, cnt int) {
+			defer wg.Done()
+			cmd := exec.Command(bin, "-test.run", "^TestWorker$", "-test.timeout", "0")
+			cmd.Env = append(os.Environ(),
+				"VERIF_PROP="+prop,
+				"VERIF_SEED="+strconv.FormatUint(base, 10),
+				"VERIF_FROM="+strconv.Itoa(from),
+				"VERIF_COUNT="+strconv.Itoa(cnt),
+				"VERIF_MINIMISE=0",
+				"VERIF_RUN_TIMEOUT=300",
+				"VERIF_DEADLINE="+strconv.FormatInt(time.Now().Add(15*time.Minute).Unix(), 10),
+				"GOMAXPROCS=1",
+				"GODEBUG=asyncpreemptoff=1",
+				"GORACE=halt_on_error=0 exitcode=0",
+			)
+			var stdout, stderr bytes.Buffer
+			cmd.Stdout, cmd.Stderr = &stdout, &stderr
+			done := make(chan error, 1)
+			if cmd.Start() != nil {
+				return
+			}
+			go func() { done <- cmd.Wait() }()
+			select {
+			case <-done:
+			case <-time.After(20 * time.Minute):
+				cmd.Process.Kill()
+				<-done
+			}
+			reps := parseRaceReports(stderr.String())
+			recs := strings.Count(stdout.String(), "\nREC ")
+			mu.Lock()
+			completed += recs
+			for _, r := range reps {
+				if r.inSUT {
+					sut = append(sut, r)
+				} else {
+					other++
+				}
+			}
+			mu.Unlock()
+		}(from, cnt)
+	}
+	wg.Wait()
+	return
+}
+
 type workerResult struct {
 	recs   []sim.Record
 	deaths []death
@@ -385,6 +503,27 @@ func main() {
 	findings := loadFindings()
 
 	if *fReplay != "" {
+		if data, err := os.ReadFile(*fReplay); err == nil {
+			var rf replayFile
+			if json.Unmarshal(data, &rf) == nil && rf.Flavour == "race" {
+				// a report of the race-detector pass is not a schedule: replaying
+				// it means running that pass again and looking for the same pair
+				rbin, err := buildRaceWorker()
+				if err != nil {
+					fail2("%v", err)
+				}
+				sut, _, n := racePass(rbin, p.ID, 1, 512, *fProcs)
+				for _, r := range sut {
+					if strings.Join(r.tops, " / ") == rf.Sig {
+						fmt.Printf("data race in coreutils (race-detector pass, %d runs): %s\n%s\n", n, rf.Sig, r.text)
+						fmt.Printf("VIOLATION property=%s replay=%s\n", p.ID, *fReplay)
+						os.Exit(1)
+					}
+				}
+				fmt.Printf("replay: the race-detector pass (%d runs) did not report %s again\n", n, rf.Sig)
+				return
+			}
+		}
 		rec, msg := replay(bin, p.ID, *fReplay)
 		if rec == nil {
 			// a process death is the recorded violation for crash-class findings
@@ -644,6 +783,51 @@ func main() {
 		_ = i
 	}
 
+	// the race-detector pass (thorough tier, or VERIF_RACE=1)
+	raceInfo := map[string]any{"ran": false}
+	if p.Race && (tier == "thorough" || os.Getenv("VERIF_RACE") == "1") && os.Getenv("VERIF_RACE") != "0" {
+		n := runs / 25
+		if n > 3000 {
+			n = 3000
+		}
+		if n < 64 {
+			n = 64
+		}
+		if rbin, err := buildRaceWorker(); err != nil {
+			fmt.Fprintf(os.Stderr, "simcheck: %v\nsimcheck: race-detector pass skipped\n", err)
+			raceInfo["skipped"] = firstLine(err.Error())
+		} else {
+			sut, other, completed := racePass(rbin, p.ID, base, n, procs)
+			raceInfo = map[string]any{"ran": true, "runs": completed, "reports_in_coreutils": len(sut), "reports_in_harness_code": other, "flavour": "plain, -race"}
+			seenRace := map[string]bool{}
+			for _, r := range sut {
+				sig := strings.Join(r.tops, " / ")
+				if seenRace[sig] {
+					continue
+				}
+				seenRace[sig] = true
+				rv := &sim.Violation{Invariant: p.ID + ".data-race", Sig: sig}
+				if f := matchOpen(findings, p.ID, rv); f != nil {
+					if f.hit == 0 {
+						fmt.Printf("KNOWN-FINDING: %s\n", f.text)
+						knownHit = append(knownHit, f.text)
+					}
+					f.hit++
+					continue
+				}
+				name := fmt.Sprintf("%s-race-%x.json", p.ID, sha256.Sum256([]byte(sig)))[:len(p.ID)+6+16] + ".json"
+				path := filepath.Join(root, "replays", name)
+				rf := replayFile{Property: p.ID, UseSeed: true, Flavour: "race", Invariant: rv.Invariant, Sig: sig, Detail: r.text}
+				b, _ := json.MarshalIndent(rf, "", " ")
+				os.WriteFile(path, b, 0o644)
+				violations++
+				fmt.Printf("data race in coreutils (race-detector pass): %s\n", sig)
+				fmt.Printf("VIOLATION property=%s replay=%s\n", p.ID, path)
+				vsummary = append(vsummary, map[string]any{"invariant": rv.Invariant, "sig": sig, "runs": 1, "replay": path})
+			}
+		}
+	}
+
 	// samples: the first two runs again, verbose
 	var samples []any
 	{
@@ -677,6 +861,7 @@ func main() {
 		"determinism":          det,
 		"flavour":              flavour,
 		"lock_yields":          flavour == "instrumented",
+		"race_detector_pass":   raceInfo,
 		"known_findings":       knownHit,
 		"harness_trouble_runs": infra,
 		"violations_detail":    vsummary,
